@@ -165,6 +165,7 @@ func c02() {
 		})
 		restore()
 	}
+	c02KernelTier(run, ts)
 	run.Set("evaluations_per_op_and_order", perOpOrder)
 	run.Set("relation_cells_hit", len(cells))
 	run.Set("relation_cells_possible", 8*2*9)
@@ -177,7 +178,68 @@ func c02() {
 	if run.Violations() == 0 {
 		run.Require("cells", 8*2*9)
 		run.Require("programs", 1000)
+		run.Require("kernel:children", 20)
+		run.Require("kernel:probes", 1000)
 	}
 	run.Finish(run.Counter("evaluations"), int64(len(cells)),
 		"single-condition single-entry policies for 8 ops x 6 argument positions x boundary+PRNG operands, each evaluated on the hi/lo neighbourhood product of the operand with the other words set to a verdict-flipping value and to the swapped halves, under both byte orders; distinct = (op, byte order, sign(hi compare), sign(lo compare)) cells hit")
+}
+
+// c02KernelTier loads single-condition filters into the running kernel
+// (little-endian production layout) in amd64 children, where all 64 bits of
+// a register reach the filter, and in 386 children, where the high word must
+// read as zero.
+func c02KernelTier(run *vlib.Run, ts []*vlib.Target) {
+	o, err := vlib.LoadOracles()
+	if err != nil {
+		run.Inconclusive(err.Error())
+		return
+	}
+	st := &kernelStats{outcomes: map[string]int64{}, perABI: map[string]int64{}, shapes: map[string]bool{}}
+	n := run.N(96, 3000)
+	vlib.Parallel(n, func(i int) {
+		r := caseRand(run, 2000000+i)
+		goarch := "amd64"
+		if i%3 == 2 {
+			goarch = "386"
+		}
+		t := hostTarget(ts, goarch)
+		probes := probeNames[goarch]
+		op := vlib.AllOps[i%8]
+		arg := uint32((i / 8) % 6)
+		val := vlib.BoundaryValues[(i/48)%len(vlib.BoundaryValues)]
+		if i >= 48*len(vlib.BoundaryValues) {
+			val = r.Uint64()
+		}
+		if goarch == "386" && i%2 == 0 {
+			val &= 0xffffffff
+		}
+		name := probes[r.Intn(len(probes))]
+		cond := seccomp.Condition{Argument: arg, Operation: op, Value: val}
+		p := &seccomp.Policy{DefaultAction: vlib.RetAllow, Syscalls: []seccomp.SyscallGroup{{Action: vlib.RetErrno,
+			NamesWithCondtions: []seccomp.NameWithConditions{{Name: name, Conditions: seccomp.ArgumentConditions{cond}}}}}}
+		cc := &vlib.ChildCase{Policy: vlib.SpecOf(p, t.Name), Flags: 0, NNP: true}
+		vh, vl := uint32(val>>32), uint32(val)
+		var actual []uint64
+		for _, h := range halves(vh) {
+			for _, l := range halves(vl) {
+				actual = append(actual, uint64(h)<<32|uint64(l))
+			}
+		}
+		for _, a := range actual {
+			fill := a>>32 | a<<32
+			pr := vlib.Probe{Kind: "syscall", NR: uint64(t.Num[name])}
+			for x := range pr.Args {
+				pr.Args[x] = fill
+			}
+			pr.Args[arg] = a
+			cc.Probes = append(cc.Probes, pr)
+		}
+		kc := &kernelCase{goarch: goarch, t: t, cc: cc, desc: fmt.Sprintf("kernel case %d: %s arg%d %s %#x on %s", i, goarch, arg, op, val, name)}
+		judgeEnforce(run, o, kc, st, "kernel:")
+	})
+	for k, v := range st.outcomes {
+		run.Count("kernel:outcome:"+k, v)
+	}
+	run.Set("kernel_children_per_abi", st.perABI)
 }
